@@ -724,8 +724,8 @@ def run(rep, tier, seed):
         bad, stats = fut.result()
         rep.add_tlc("trace-validation:" + cfg, stats["tlc"])
         rep.add_traces("random-edit-histories:" + tname, len(traces), sum(len(t["ev"]) for t in traces),
-                       "seeded random edit histories (all nine edits, any node, richer parameters than the exhaustive runs) on real trees; "
-                       "every event (call, arguments, every component's numberDensities and keys afterwards, exception kind) must be a step of Inventory")
+                       "seeded random edit histories (all twelve edits incl. vector mass calls and block height changes, any node, richer parameters than the exhaustive runs) on real trees; "
+                       "every event (call, arguments, every component's numberDensities and keys and every block height afterwards, exception kind) must be a step of Inventory")
         if traces:
             rep.sample({"kind": "trace", "tree": tname, "id": traces[0]["id"], "events": traces[0]["ev"][:2]})
         for b in bad:
